@@ -32,12 +32,18 @@
    space on which the two pipelines return different values (known class K3: a name ending in the first
    character of a two-character copula).
 
+   ASCII AND LATEX, UNCONDITIONAL (C03_term_ascii_latex and the theorems after it): for these two formats
+   unamb follows from the well-formedness of the atoms (Proofs/EnumUnambP.v, finite check unamb_fmt_ok),
+   at any spacing; so for every well-formed term x both pipelines read fmt_term x -- and every re-spacing
+   of it, and the same text with a derived copula on top -- back to the same value, with NO side
+   condition beyond the property's own wf_term.  For Han the check fails (K3) and the conditional
+   theorem above is what is proved.
+
    NOT covered here: the sentence / task layer (punctuation, stamp, truth, budget): C03.v has the fold
-   third for whole values; derivation of unamb from well-formedness of the names for ASCII / LaTeX
-   (self-delimiting formats) is the enum-side work of C01; agreement of the two REAL pipelines with the
-   models is the correspondence check of ./check C03 (differential testing). *)
+   third for whole values; agreement of the two REAL pipelines with the models is the correspondence
+   check of ./check C03 (differential testing). *)
 From Nv Require Import Model.SstLex Model.SstOf.
-From Nv Require Import Proofs.LexPTerm Proofs.LexPTables Proofs.FoldP2 Proofs.EnumTermCor Proofs.AgreeP.
+From Nv Require Import Proofs.LexPTerm Proofs.LexPTables Proofs.FoldP2 Proofs.EnumTermCor Proofs.EnumUnambP Proofs.AgreeP.
 Import ListNotations.
 
 (* ---- the tables ---- *)
@@ -53,12 +59,12 @@ Print Assumptions C03b_tables_discriminate.
 
 (* ---- 1. the space-free text of a tree is the lexical formatter's text (empty spacing) of lex_tree ---- *)
 Theorem C03b_render_is_lex_text : forall (ia : N -> bool) (E : efmt) (L : lfmt), agree_ok ia E L = true ->
-  forall t : sterm, tree_ok t = true -> render E (respace 0 t) = lex_fmt_term_g L [] (lex_tree E t).
+  forall t : sterm, shape_ok t = true -> render E (respace 0 t) = lex_fmt_term_g L [] (lex_tree E t).
 Proof. exact render_respace0. Qed.
 Print Assumptions C03b_render_is_lex_text.
 
-Theorem C03b_meaning_is_well_shaped : forall (t : sterm) (v : term), odesugar t = Some v -> tree_ok t = true.
-Proof. exact odesugar_tree_ok. Qed.
+Theorem C03b_meaning_is_well_shaped : forall (t : sterm) (v : term), odesugar t = Some v -> shape_ok t = true.
+Proof. exact odesugar_shape_ok. Qed.
 Print Assumptions C03b_meaning_is_well_shaped.
 
 (* ---- 2. whitespace: the lexical parser works on the space-free text, whatever the spacing ---- *)
@@ -85,7 +91,7 @@ Print Assumptions C03b_lex_term_layer.
 
 (* ---- the lexical side conditions follow from the enum side ---- *)
 Theorem C03b_lex_unamb_of_enum : forall (ia : N -> bool) (E : efmt) (L : lfmt), agree_ok ia E L = true ->
-  forall (t : sterm) (forbid : list str) (k : str), tree_ok t = true ->
+  forall (t : sterm) (forbid : list str) (k : str), shape_ok t = true ->
   unamb_ctx ia E forbid (respace 0 t) k = true -> LexSpec.unamb L (lex_tree E t) k.
 Proof. exact lex_unamb_of_enum. Qed.
 Print Assumptions C03b_lex_unamb_of_enum.
@@ -197,7 +203,75 @@ Theorem C03b_agree_term_fmt_shipped : forall (F : Type) (E : efmt) (L : lfmt) (x
 Proof. exact agree_term_fmt_shipped. Qed.
 Print Assumptions C03b_agree_term_fmt_shipped.
 
+(* ---- self-delimiting formats: unamb discharged from the well-formedness of the atoms ---- *)
+Theorem C03b_agree_term_selfdelim : forall (F : Type) (ia : N -> bool) (E : efmt) (L : lfmt),
+  agree_all ia E L = true -> unamb_fmt_ok ia E = true ->
+  forall (t : sterm) (v : term),
+  odesugar t = Some v -> satoms_ok ia E t = true ->
+  parse_term F ia E (new_state F (render E t)) =
+    POk v (step F (length (render E t)) (new_state F (render E t))) /\
+  lex_then_fold ia L E (render E t) = FOk v.
+Proof. exact agree_term_selfdelim. Qed.
+Print Assumptions C03b_agree_term_selfdelim.
+
+(* C03 for ASCII and LaTeX terms: everything the enum formatter emits for a well-formed term *)
+Theorem C03_term_ascii_latex : forall (F : Type) (E : efmt) (L : lfmt) (x : term),
+  (E = FORMAT_ASCII /\ L = LEX_ASCII) \/ (E = FORMAT_LATEX /\ L = LEX_LATEX) ->
+  wf_term std_alnum E x = true ->
+  parse_term F std_alnum E (new_state F (fmt_term E x)) =
+    POk x (step F (length (fmt_term E x)) (new_state F (fmt_term E x))) /\
+  lex_then_fold std_alnum L E (fmt_term E x) = FOk x.
+Proof. exact agree_fmt_plain. Qed.
+Print Assumptions C03_term_ascii_latex.
+
+(* ... every re-spacing of it (C09 for both pipelines: n space keywords at every token boundary) *)
+Theorem C03_term_ascii_latex_respaced : forall (F : Type) (E : efmt) (L : lfmt) (n : nat) (x : term),
+  (E = FORMAT_ASCII /\ L = LEX_ASCII) \/ (E = FORMAT_LATEX /\ L = LEX_LATEX) ->
+  wf_term std_alnum E x = true ->
+  parse_term F std_alnum E (new_state F (render E (respace n (sst E x)))) =
+    POk x (step F (length (render E (respace n (sst E x)))) (new_state F (render E (respace n (sst E x))))) /\
+  lex_then_fold std_alnum L E (render E (respace n (sst E x))) = FOk x.
+Proof. exact agree_fmt_respaced_plain. Qed.
+Print Assumptions C03_term_ascii_latex_respaced.
+
+(* ... the same strings written with a derived copula (C10 for both pipelines): any statement arm over the
+   texts of two well-formed terms, any spacing around the copula; v is the documented meaning *)
+Theorem C03_term_ascii_latex_sugar :
+  forall (F : Type) (E : efmt) (L : lfmt) (arm sp0 sp1 sp2 sp3 : nat) (x y : term) (v : term),
+  (E = FORMAT_ASCII /\ L = LEX_ASCII) \/ (E = FORMAT_LATEX /\ L = LEX_LATEX) ->
+  wf_term std_alnum E x = true -> wf_term std_alnum E y = true ->
+  let t := SStmt arm sp0 sp1 sp2 sp3 (sst E x) (sst E y) in
+  odesugar t = Some v ->
+  parse_term F std_alnum E (new_state F (render E t)) =
+    POk v (step F (length (render E t)) (new_state F (render E t))) /\
+  lex_then_fold std_alnum L E (render E t) = FOk v.
+Proof. exact agree_sugar_plain. Qed.
+Print Assumptions C03_term_ascii_latex_sugar.
+
+(* ... and any surface tree at all whose atoms are well-formed (derived copulas at any depth, any spacing) *)
+Theorem C03_tree_ascii_latex : forall (F : Type) (E : efmt) (L : lfmt) (t : sterm) (v : term),
+  (E = FORMAT_ASCII /\ L = LEX_ASCII) \/ (E = FORMAT_LATEX /\ L = LEX_LATEX) ->
+  odesugar t = Some v -> satoms_ok std_alnum E t = true ->
+  parse_term F std_alnum E (new_state F (render E t)) =
+    POk v (step F (length (render E t)) (new_state F (render E t))) /\
+  lex_then_fold std_alnum L E (render E t) = FOk v.
+Proof. exact agree_term_plain. Qed.
+Print Assumptions C03_tree_ascii_latex.
+
+(* C09, lexical pipeline: any text with the same whitespace-free form (any Unicode White_Space anywhere) *)
+Theorem C09_lex_any_text_ascii_latex : forall (E : efmt) (L : lfmt) (t : sterm) (v : term) (s : str),
+  (E = FORMAT_ASCII /\ L = LEX_ASCII) \/ (E = FORMAT_LATEX /\ L = LEX_LATEX) ->
+  odesugar t = Some v -> satoms_ok std_alnum E t = true ->
+  idealize_env (compile L) s = render E (respace 0 t) ->
+  lex_then_fold std_alnum L E s = FOk v.
+Proof. exact lex_then_fold_plain. Qed.
+Print Assumptions C09_lex_any_text_ascii_latex.
+
 (* ---- the hypotheses are satisfiable ---- *)
+Example ex_C03b_satoms_plain :
+  forallb (fun E => satoms_ok std_alnum E (ex_tree 2) && satoms_ok std_alnum E (ex_tree2 1)) [FORMAT_ASCII; FORMAT_LATEX] = true.
+Proof. exact ex_satoms_plain. Qed.
+
 (* two nested trees (instance / property / instance-property / retrospective-equivalence copulas, both
    images, interval, sets, negation, product, every variable kind, an operator, a placeholder with
    trailing text) in the three formats, with 0, 1, 2, 3 spaces at every boundary: all hypotheses hold
